@@ -217,6 +217,10 @@ def method_cfg(world, cls_qname, name, inline_also=(), lift_values=False):
                                        for x in ast.walk(b))
                                    for b in (n.body[0], n.orelse[0]))]
     if len(dia) >= 4 and len({unparse(n.test) for n in dia}) == 1:
+        fn2 = _outline_factories(fn, world, dia)
+        if fn2 is not None:
+            fn, dia = fn2, []
+    if len(dia) >= 4 and len({unparse(n.test) for n in dia}) == 1:
         raise AnalysisError(
             "%s picks the command set (gear / device) once and yields "
             "`<set>.X(...)` at every step (%d sites decided by `%s`); the "
@@ -236,3 +240,104 @@ def method_cfg(world, cls_qname, name, inline_also=(), lift_values=False):
                 "chosen at run time; the memory rules resolve the command "
                 "of every yield statically" % (q, unparse(y.call.func)))
     return fn, cfg, ys, q
+
+
+def _outline_factories(fn, world, dia):
+    """Each diamond `if isinstance(addr, GearAddress): [r =] yield
+    gear.general.X(A) else: [r =] yield device.general.X(A)` is what the
+    module's factory `_X(addr, ...)` returns for a gear / device address
+    (the factory's own body is compared: same test, same two constructors,
+    same use of its parameters): the diamond is written back as `[r =] yield
+    _X(addr, A)`, the one-command-per-site form the rules read.  Returns the
+    rewritten copy, or None when some diamond is not such a pair."""
+    from .inline import acopy
+    mod = world.repo.mod(LOC) if hasattr(world, "repo") else None
+    facts = {}
+    tree = mod.tree if mod is not None else None
+    if tree is None:
+        return None
+    for f in tree.body:
+        if isinstance(f, ast.FunctionDef) and f.name.startswith("_") and \
+                f.body:
+            b = [s_ for s_ in f.body if not (isinstance(s_, ast.Expr) and
+                                             isinstance(s_.value,
+                                                        ast.Constant))]
+            if len(b) == 1 and isinstance(b[0], ast.If) and len(
+                    b[0].body) == 1 and isinstance(b[0].body[0], ast.Return):
+                facts[f.name] = (f, b[0])
+
+    def split(stmt):
+        """(target or None, Call) of `[t =] yield Call`"""
+        if isinstance(stmt, ast.Expr) and isinstance(stmt.value, ast.Yield):
+            return None, stmt.value.value
+        if isinstance(stmt, ast.Assign) and len(stmt.targets) == 1 and \
+                isinstance(stmt.value, ast.Yield):
+            return stmt.targets[0], stmt.value.value
+        return "bad", None
+    repl = {}
+    for d in dia:
+        t1, c1 = split(d.body[0])
+        t2, c2 = split(d.orelse[0])
+        if t1 == "bad" or t2 == "bad" or not isinstance(
+                c1, ast.Call) or not isinstance(c2, ast.Call):
+            return None
+        if (t1 is None) != (t2 is None) or (
+                t1 is not None and unparse(t1) != unparse(t2)):
+            return None
+        if not (isinstance(c1.func, ast.Attribute) and isinstance(
+                c2.func, ast.Attribute) and c1.func.attr == c2.func.attr and
+                [unparse(a) for a in c1.args] == [unparse(a)
+                                                  for a in c2.args] and
+                not c1.keywords and not c2.keywords):
+            return None
+        name = "_" + c1.func.attr
+        if name not in facts:
+            return None
+        f, fi = facts[name]
+        # the factory: same test on its first parameter, the gear arm
+        # returns the same constructor applied to its parameters
+        ps = [a.arg for a in f.args.args]
+        tparam = d.test.args[0] if isinstance(d.test, ast.Call) and \
+            d.test.args else None
+        if tparam is None or unparse(fi.test) != unparse(d.test).replace(
+                unparse(tparam), ps[0], 1):
+            return None
+        rc = fi.body[0].value
+        if not (isinstance(rc, ast.Call) and unparse(rc.func) == unparse(
+                c1.func) and len(rc.args) == len(c1.args) and all(
+                    isinstance(a, ast.Name) and a.id in ps
+                    for a in rc.args)):
+            return None
+        # arguments of the factory call, by the parameter each constructor
+        # argument comes from
+        amap = {}
+        for (pa, ca) in zip(rc.args, c1.args):
+            if pa.id == ps[0]:
+                if unparse(ca) != unparse(tparam):
+                    return None
+            amap[pa.id] = ca
+        args = [acopy(tparam)] + [acopy(amap[p_]) for p_ in ps[1:]
+                                  if p_ in amap]
+        if len(args) != len(ps):
+            return None
+        call = ast.Call(ast.Name(name, ast.Load()), args, [])
+        y = ast.Yield(call)
+        new = ast.Expr(y) if t1 is None else ast.Assign([acopy(t1)], y)
+        repl[id(d)] = ast.copy_location(new, d)
+    out = acopy(fn)
+    # acopy loses node identity: match by position
+    olds = [n for n in ast.walk(fn) if isinstance(n, ast.If)]
+    news = [n for n in ast.walk(out) if isinstance(n, ast.If)]
+    if len(olds) != len(news):
+        return None
+    rmap = {id(nw): repl[id(od)] for od, nw in zip(olds, news)
+            if id(od) in repl}
+
+    class R(ast.NodeTransformer):
+        def visit_If(self, n):
+            if id(n) in rmap:
+                return rmap[id(n)]
+            return self.generic_visit(n)
+    out = R().visit(out)
+    ast.fix_missing_locations(out)
+    return out
